@@ -105,7 +105,7 @@ func concurrently(res *vkit.Result, what string, k int, mk func(i int) *sess.Spe
 }
 
 func raceReal(res *vkit.Result) {
-	// One session at a time; what is concurrent are the workers of the pool inside each Accept /
+	// One session at a time (CMP with three signers, so that every fan-out has two tasks); what is concurrent are the workers of the pool inside each Accept /
 	// Finalize of one handler, which hash, compare and marshal the same public points and moduli.
 	// (Two sessions sharing key-material OBJECTS are not what the property speaks about - it is about
 	// one handler driven from several goroutines - and are not run here.)
@@ -134,15 +134,15 @@ func raceReal(res *vkit.Result) {
 	}
 	ck, err := loadCMPKeys()
 	if err != nil && vkit.Thorough() {
-		ck, err = kmat.CMP(2, 1)
+		ck, err = kmat.CMP(3, 1)
 	}
 	if err != nil {
 		res.Note("cmp race body skipped: " + err.Error())
 	} else {
-		one("cmp-sign", 1, 10*time.Minute, func(i int) *sess.Spec { return sess.CMPSign(ck, kmat.IDs[:2], msg(i)) })
+		one("cmp-sign", 1, 10*time.Minute, func(i int) *sess.Spec { return sess.CMPSign(ck, kmat.IDs[:3], msg(i)) })
 		{
-			one("cmp-presign", 1, 10*time.Minute, func(i int) *sess.Spec { return sess.CMPPresign(ck, kmat.IDs[:2]) })
-			one("cmp-refresh", 1, 20*time.Minute, func(i int) *sess.Spec { return sess.CMPRefresh(ck, kmat.IDs[:2]) })
+			one("cmp-presign", 1, 10*time.Minute, func(i int) *sess.Spec { return sess.CMPPresign(ck, kmat.IDs[:3]) })
+			one("cmp-refresh", 1, 20*time.Minute, func(i int) *sess.Spec { return sess.CMPRefresh(ck, kmat.IDs[:3]) })
 		}
 	}
 }
@@ -151,7 +151,7 @@ func cmpKeyFile() string { return filepath.Join(filepath.Dir(*vkit.Out), "c17-cm
 
 // dumpCMPKeys is called by shard 0 of the explore pass.
 func dumpCMPKeys() {
-	ck, err := kmat.CMP(2, 1)
+	ck, err := kmat.CMP(3, 1)
 	if err != nil {
 		return
 	}
